@@ -878,11 +878,16 @@ func TestVerifC27(t *testing.T) {
 		return
 	}
 
-	// one-time initialisation (package caches, lazily built tables) outside every measurement
+	// one-time initialisation (package caches, lazily built tables) outside every measurement.
+	// A receiver that cannot even serve a plain valid conversation is judged on that conversation.
 	for i := 0; i < 3; i++ {
 		if w := zvC27Exec(zvC27FollowStream, nil); w.Panic != nil || w.Follow != "" || w.FollowP != nil {
-			r.Violation(vh.Sig("clause", "followup", "kind", "warmup"), &zvC27Case{Seed: "warmup", Mut: "none", MsgType: -1, Hex: hex.EncodeToString(zvC27FollowStream)},
-				"a plain valid conversation does not work: panic=%v follow=%q", w.Panic, w.Follow)
+			c := &zvC27Case{Seed: "warmup", Mut: "none", MsgType: -1, Hex: hex.EncodeToString(zvC27FollowStream)}
+			zvC27Judge(r, c, zvC27FollowStream, zvC27Prescreen(zvC27FollowStream), w)
+			for _, k := range zvC27Required {
+				r.Count(k, 1)
+			}
+			r.Cap("the plain valid conversation already fails: mutants not executed")
 			return
 		}
 	}
